@@ -9,6 +9,10 @@
 
 use jubako as jbk;
 use std::io::Read;
+
+#[path = "../../../harness/src/indep.rs"]
+#[allow(dead_code)]
+mod indep;
 use std::sync::atomic::{AtomicU64, Ordering};
 use std::sync::Arc;
 
@@ -130,6 +134,9 @@ fn opt(args: &[String], name: &str) -> Option<String> {
 }
 
 fn model(bound: Option<usize>, f: impl Fn() + Sync + Send + 'static) -> Result<(), String> {
+    // loom runs the closure on a coroutine with a small stack: do the work on a loom thread with
+    // a large one (the extra spawn/join adds two scheduling points and one of loom's 5 threads
+    // only for the `pipeline` models, which ask for it)
     let mut b = loom::model::Builder::new();
     b.preemption_bound = bound;
     b.max_branches = 100_000;
@@ -150,7 +157,9 @@ fn main() {
     let sub = args.get(1).cloned().unwrap_or_default();
     let bound: Option<usize> = opt(&args, "--bound").and_then(|b| if b == "none" { None } else { b.parse().ok() });
     // keep loom's panic output short
-    std::panic::set_hook(Box::new(|_| {}));
+    if std::env::var("LOOMMC_VERBOSE").is_err() {
+        std::panic::set_hook(Box::new(|_| {}));
+    }
     let result = match sub.as_str() {
         "decoder" => {
             let chunks: usize = opt(&args, "--chunks").unwrap().parse().unwrap();
@@ -254,6 +263,71 @@ fn main() {
                         err = Some(format!("stream ends after {eof} of {total} bytes, reader ({o},{n}): {e}"));
                         break 'o;
                     }
+                }
+            }
+            (configs, err)
+        }
+        "pipeline" => {
+            // the real ClusterWriterProxy / ClusterCompressor / ClusterWriter under loom
+            let workers: usize = opt(&args, "--workers").unwrap().parse().unwrap();
+            let max_blobs: usize = opt(&args, "--max-blobs").map(|x| x.parse().unwrap()).unwrap_or(1);
+            // program: string over {c (content with hint Yes), r (content with hint No)}
+            let programs: Vec<String> = match opt(&args, "--program") {
+                Some(p) => vec![p],
+                None => {
+                    let n: usize = opt(&args, "--len").map(|x| x.parse().unwrap()).unwrap_or(3);
+                    let mut v = vec![];
+                    for mask in 0..(1u32 << n) {
+                        v.push((0..n).map(|i| if mask & (1 << i) != 0 { 'c' } else { 'r' }).collect::<String>());
+                    }
+                    v
+                }
+            };
+            jbk::verif::set_max_blobs_per_cluster(max_blobs);
+            let mut err = None;
+            let mut configs = 0;
+            for prog in &programs {
+                configs += 1;
+                let prog2 = prog.clone();
+                let r = model(bound, move || {
+                    EXECUTIONS.fetch_add(1, Ordering::Relaxed);
+                    let prog2 = prog2.clone();
+                    loom::thread::Builder::new().stack_size(0x100000).spawn(move || {
+                    let rec = jbk::creator::MemRecipient::new();
+                    let mut c = jbk::creator::ContentPackCreator::new_from_output_verif(
+                        rec,
+                        jbk::PackId::from(1),
+                        jbk::VendorId::from([9, 9, 9, 9]),
+                        Default::default(),
+                        jbk::creator::Compression::lz4(),
+                        Arc::new(()),
+                        workers,
+                    )
+                    .expect("creator");
+                    let mut expect: Vec<Vec<u8>> = vec![];
+                    for (i, ch) in prog2.chars().enumerate() {
+                        let bytes: Vec<u8> = (0..(5 + i)).map(|k| b'a' + ((i * 3 + k) % 20) as u8).collect();
+                        let hint = if ch == 'c' { jbk::creator::CompHint::Yes } else { jbk::creator::CompHint::No };
+                        let a = c.add_content(Box::new(std::io::Cursor::new(bytes.clone())), hint).expect("add_content");
+                        assert_eq!(a.content_id.into_u32() as usize, i, "address returned");
+                        expect.push(bytes);
+                    }
+                    let (file, _info) = c.finalize().expect("finalize");
+                    let bytes = file.into_bytes();
+                    let map = indep::content_pack(&bytes, 0).unwrap_or_else(|e| panic!("independent decoder rejects the pack: {e}"));
+                    assert_eq!(map.content_count, expect.len(), "content count");
+                    for (i, want) in expect.iter().enumerate() {
+                        let got = map.content_bytes(&bytes, i).unwrap_or_else(|e| panic!("content {i} does not decode: {e}"));
+                        assert_eq!(&got, want, "content {i} resolves to other bytes");
+                    }
+                    let mut ids: Vec<usize> = map.clusters.iter().map(|c| c.id).collect();
+                    ids.sort();
+                    assert_eq!(ids, (0..map.clusters.len()).collect::<Vec<_>>(), "cluster table");
+                    }).unwrap().join().unwrap();
+                });
+                if let Err(e) = r {
+                    err = Some(format!("program {prog} with {workers} workers, {max_blobs} blob(s) per cluster: {e}"));
+                    break;
                 }
             }
             (configs, err)
